@@ -136,6 +136,15 @@ CLAIMED = {
          'copy independence) is evaluated on the implementation.',
          BASE + 'Modelled, not verified: CPython dict semantics. Identifiers ASCII. minimal_selector correctness is not yet a theorem '
          '(mirror + oracle only).'),
+ 'C13': ('Theorems register_reject_atomic (a rejected registration changes nothing, for every state and request) / '
+         'register_changes_registry_only / reregister_rejected / reregister_interactive_no_clash / reregister_same_object_no_clash / '
+         'interactive_only_flag / registered_resolves / exact_unless_methods / subclass_only_for_methods hold for every state; the '
+         'registration state machine is tied to gin.config by random histories of accepted and rejected registrations (registry observed '
+         'after each, independent Python reference as judge); the object-model half (direct call vs registry call, type / isinstance / '
+         'issubclass, metadata, signature, pickling, class __dict__ untouched) is decided on the real code over a fixed table of 14 '
+         'shapes x 3 APIs x scoped/unscoped, enumerated completely on every run.',
+         BASE + 'Partial: instance class, functools.wraps metadata and pickling are CPython\'s; they are checked on the real code only '
+         '(finite table), the theorems cover the registration state machine and the decision table.'),
 }
 REASON_PENDING = 'check not built yet in this round; planned with the same technique (DESIGN.md §6, §9) - nothing is claimed until the check exists'
 
